@@ -158,6 +158,10 @@ class Parser:
                 fam, key, width = reg
                 n = Node("oreg", s, None, extra=(fam, key, width))
                 n.is_def = self._cap(("o", key))
+                if not n.is_def and width is None:
+                    # not judged: the real code rejects it loudly (NotImplementedError) and the statement
+                    # only defines what an occurrence matches through the width its suffix selects
+                    raise Unsupported("later register-family occurrence without a width suffix")
                 return n
             if s.startswith("&"):
                 n = Node("ocap", s)
